@@ -55,7 +55,31 @@ def seeded():
     return "\n".join(out)
 
 
-GEN = {"seeded": seeded}
+def findings():
+    out = ["| property | status | what failed | witness |", "|---|---|---|---|"]
+    n_fixed = n_open = 0
+    for line in open(os.path.join(HOME, "KNOWN_FINDINGS.txt")):
+        line = line.strip()
+        if not line or line.startswith("#"):
+            continue
+        status, rest = line.split(": ", 1)
+        m = re.match(r"property=(C\d\d) (\S+) (.*?)(?: witness=(\S+))?$", rest)
+        if not m:
+            continue
+        prop, tag, what, wit = m.groups()
+        if status == "fixed":
+            n_fixed += 1
+            st = "fixed `%s`" % tag
+        else:
+            n_open += 1
+            st = "**open** `%s`" % tag.replace("signature=", "")
+        out.append("| %s | %s | %s | %s |" % (prop, st, what.replace("|", "/"), ("`%s`" % wit) if wit else ""))
+    out.append("")
+    out.append("%d findings repaired by `fix:` commits in /repo, %d open." % (n_fixed, n_open))
+    return "\n".join(out)
+
+
+GEN = {"seeded": seeded, "findings": findings}
 
 
 def main():
